@@ -23,7 +23,9 @@ import (
 	"io"
 	"net"
 	"net/http"
+	"net/url"
 	"os"
+	gopath "path"
 	"path/filepath"
 	"regexp"
 	"strconv"
@@ -62,6 +64,11 @@ var c04Routes = []c04Route{
 	{"int-wild", "/internal/wild/*", "/internal/wild/a/b", []string{"GET"}, "internal"},
 	{"int-any", "/internal/any", "/internal/any", c04AllMethods, "internal"},
 	{"int-root", "/internal", "/internal", []string{"GET"}, "internal"},
+	// parameterised routes of different depth: the router matches a :param on the ENCODED path (%2f does not end it)
+	{"int-p", "/internal/p/:id", "/internal/p/abc", []string{"GET"}, "internal"},
+	{"int-abc", "/internal/a/b/c/:id", "/internal/a/b/c/xyz", []string{"GET", "POST"}, "internal"},
+	{"int-xy", "/internal/a/:x/b/:y", "/internal/a/x1/b/y1", []string{"GET"}, "internal"},
+	{"int-did", "/internal/vdr/v1/did/:did", "/internal/vdr/v1/did/did:nuts:abc", []string{"GET"}, "internal"},
 	{"status", "/status", "/status", []string{"GET"}, "status"},
 	{"status-diag", "/status/diagnostics", "/status/diagnostics", []string{"GET"}, "status"},
 	{"metrics", "/metrics", "/metrics", []string{"GET"}, "metrics"},
@@ -358,7 +365,57 @@ func c04Segments(p string) []int { // indexes of '/' in p
 }
 
 var c04PathOps = []string{"dup-slash", "dot", "dotdot", "pct-char", "pct-slash", "pct-segment", "case-char", "case-upper", "trailing-slash",
-	"params", "query", "query-path", "fragment", "backslash", "foreign-prefix", "unicode", "double-encode", "nul", "blank", "pct-dots", "semicolon-dots"}
+	"params", "query", "query-path", "fragment", "backslash", "foreign-prefix", "unicode", "double-encode", "nul", "blank", "pct-dots", "semicolon-dots", "climb-suffix", "trailing-dotdot", "pct-backslash", "double-encode-dots", "params-dots"}
+
+// Dot-segment climbing units. Decoded (and/or backslash-folded, ;param-stripped, twice-decoded) and then "cleaned" they walk up
+// the hierarchy, while on the encoded path the router sees ordinary bytes of one segment.
+var c04ClimbUnits = []string{"..%2f", "..%2F", "%2e%2e%2f", "%2E%2E%2F", "%2E%2E/", "../", ".%2e%2f", "..%5c", "..%5C", `..\`, "..;/", "..;%2f", "..;x=1%2f",
+	"%252e%252e%252f", "..%252f", "%2e%2e%5c", "..%2f/", "..%2f.%2f"}
+var c04ClimbTails = []string{"", "public", "public/a/b", "iam/x", "status", "x", "internal/probe", "..", "%2e%2e", "health", "metrics"}
+var c04ClimbCounts = []string{"1", "2", "3", "4", "5", "6", "7", "8"}
+
+// c04ClimbString draws unit^k + tail (the tail's slashes optionally encoded so that it stays inside one segment).
+func c04ClimbString(t *rapid.T) (string, []string) {
+	unit := c04Pick(t, "climbunit", c04ClimbUnits)
+	k, _ := strconv.Atoi(c04Pick(t, "climbk", c04ClimbCounts))
+	tail := c04Pick(t, "climbtail", c04ClimbTails)
+	lead := c04Weighted(t, "climblead", "", 4, "abc%2f", 1, "did:nuts:x%2F", 1)
+	if strings.Contains(tail, "/") && rapid.Bool().Draw(t, "tailenc") {
+		tail = strings.ReplaceAll(tail, "/", "%2f")
+	}
+	return lead + strings.Repeat(unit, k) + tail, []string{"climb:unit=" + unit, fmt.Sprintf("climb:k=%d", k), "climb:tail=" + tail}
+}
+
+var c04ParamRoutes = []string{"int-p", "int-abc", "int-xy", "int-did", "int-param", "int-wild"}
+
+// c04ClimbPath instantiates a parameterised /internal route with a climbing string in one of its parameters.
+func c04ClimbPath(t *rapid.T, r *c04Route) (string, []string) {
+	segs := strings.Split(strings.TrimPrefix(r.Path, "/"), "/")
+	var params []string
+	for i, sg := range segs {
+		if strings.HasPrefix(sg, ":") || sg == "*" {
+			params = append(params, strconv.Itoa(i))
+		}
+	}
+	if len(params) == 0 {
+		return r.Concrete, nil
+	}
+	chosen, _ := strconv.Atoi(c04Pick(t, "climbparam", params))
+	climb, notes := c04ClimbString(t)
+	var b strings.Builder
+	for i, sg := range segs {
+		b.WriteString("/")
+		switch {
+		case i == chosen:
+			b.WriteString(climb)
+		case strings.HasPrefix(sg, ":") || sg == "*":
+			b.WriteString("v" + strconv.Itoa(i))
+		default:
+			b.WriteString(sg)
+		}
+	}
+	return b.String(), append(notes, "climb:route="+r.Name, fmt.Sprintf("climb:param-index=%d", chosen))
+}
 
 func c04MutatePath(t *rapid.T, p string) (string, string) {
 	op := c04Pick(t, "pathop", c04PathOps)
@@ -443,6 +500,17 @@ func c04MutatePath(t *rapid.T, p string) (string, string) {
 		return p[:at] + "/%2e" + p[at:], op
 	case "semicolon-dots":
 		return p + "/..;/" + strings.TrimPrefix(p, "/"), op
+	case "climb-suffix":
+		c, _ := c04ClimbString(t)
+		return p + "/" + c, op
+	case "trailing-dotdot":
+		return p + rapid.SampledFrom([]string{"/..", "/../..", "/%2e%2e", "/..%2f..", "/.", "/%2e", "/../../..", "/..;"}).Draw(t, "tdd"), op
+	case "pct-backslash":
+		return p[:at] + rapid.SampledFrom([]string{"%5c", "%5C", "%255c"}).Draw(t, "bs") + p[at+1:], op
+	case "double-encode-dots":
+		return p[:at] + "/%252e%252e" + p[at:], op
+	case "params-dots":
+		return p[:at] + rapid.SampledFrom([]string{"/..;v=1", "/;/..", "/.;/", "/x;/.."}).Draw(t, "pd") + p[at:], op
 	}
 	return p, "none"
 }
@@ -523,8 +591,29 @@ func c04GenCase(t *rapid.T) c04Case {
 	if c.Cfg == "split" {
 		c.Lis = c04Weighted(t, "lis", "internal", 2, "public", 1)
 	}
-	focus := c04Weighted(t, "focus", "token", 8, "target", 9, "both", 4, "listener", 3)
+	focus := c04Weighted(t, "focus", "token", 8, "target", 9, "both", 4, "listener", 3, "climb", 6)
 	c.Note = append(c.Note, "focus="+focus)
+	if focus == "climb" {
+		// encoded dot-segment climbing inside a parameter of a parameterised /internal route (guard vs. router disagreement)
+		c.Lis = "internal"
+		route := c04RouteByName(c04Pick(t, "croute", c04ParamRoutes))
+		c.Note = append(c.Note, "route="+route.Name)
+		c.Method = route.Methods[0]
+		path, notes := c04ClimbPath(t, route)
+		c.Note = append(c.Note, notes...)
+		if rapid.IntRange(0, 5).Draw(t, "cextra") == 0 {
+			var op string
+			path, op = c04MutatePath(t, path)
+			c.Note = append(c.Note, "pathop="+op)
+		}
+		form := c04Weighted(t, "cform", "origin", 6, "absolute", 1)
+		c.Target = c04WrapTarget(t, path, form)
+		c.Note = append(c.Note, "form="+form)
+		var an []string
+		c.Auth, an = c04GenAuth(t, c04Weighted(t, "authhow-c", "none", 6, "valid", 3, "generated", 1))
+		c.Note = append(c.Note, an...)
+		return c
+	}
 	if focus == "listener" {
 		// a request for something bound to the internal interface, sent to the PUBLIC listener of a two-listener engine
 		c.Cfg, c.Lis = "split", "public"
@@ -552,6 +641,7 @@ func c04GenCase(t *rapid.T) c04Case {
 
 	// base route
 	rname := c04Weighted(t, "route", "int-probe", 6, "int-param", 3, "int-deep", 3, "int-wild", 2, "int-any", 4, "int-root", 2,
+		"int-p", 2, "int-abc", 2, "int-xy", 2, "int-did", 2,
 		"status", 1, "status-diag", 1, "metrics", 1, "health", 1,
 		"pub-root", 1, "pub-iam", 1, "pub-oauth", 1, "pub-wk", 1, "pub-n2n", 1, "pub-wild", 1, "pub-statuslist", 1, "(none-internal)", 1, "(none)", 1)
 	path := ""
@@ -574,7 +664,7 @@ func c04GenCase(t *rapid.T) c04Case {
 	if focus == "token" {
 		// plain request aimed at an internal route on the listener that serves it; everything interesting is in the credential
 		if route == nil || route.Group != "internal" {
-			route = c04RouteByName(rapid.SampledFrom([]string{"int-probe", "int-param", "int-deep", "int-wild", "int-any"}).Draw(t, "introute"))
+			route = c04RouteByName(rapid.SampledFrom([]string{"int-probe", "int-param", "int-deep", "int-wild", "int-any", "int-p", "int-abc", "int-xy", "int-did"}).Draw(t, "introute"))
 			path = route.Concrete
 			c.Method = rapid.SampledFrom(route.Methods).Draw(t, "regmethod2")
 			c.Note[len(c.Note)-1] = "route=" + route.Name
@@ -665,6 +755,41 @@ func c04GenCase(t *rapid.T) c04Case {
 var c04AbsRe = regexp.MustCompile(`^[A-Za-z][A-Za-z0-9+.\-]*:`)
 var c04SimpleQueryRe = regexp.MustCompile(`^\?[a-z0-9=&]*$`)
 var c04FieldNameRe = regexp.MustCompile(`^[A-Za-z][A-Za-z0-9-]*$`)
+
+func c04Under(p string) bool { return p == "/internal" || strings.HasPrefix(p, "/internal/") }
+
+// c04Normalisations lists the path normalisations under which the target's path is NOT under /internal (class counting only).
+func c04Normalisations(target string) []string {
+	u, err := url.ParseRequestURI(target)
+	if err != nil {
+		return nil
+	}
+	var out []string
+	dec := u.Path
+	if !c04Under(gopath.Clean("/" + dec)) {
+		out = append(out, "decode+clean")
+	}
+	if !c04Under(gopath.Clean("/" + strings.ReplaceAll(dec, `\`, "/"))) {
+		out = append(out, "decode+backslash+clean")
+	}
+	if d2, err := url.PathUnescape(dec); err == nil && !c04Under(gopath.Clean("/"+d2)) {
+		out = append(out, "decode-twice+clean")
+	}
+	var segs []string
+	for _, sg := range strings.Split(dec, "/") {
+		if i := strings.IndexByte(sg, ';'); i >= 0 {
+			sg = sg[:i]
+		}
+		segs = append(segs, sg)
+	}
+	if !c04Under(gopath.Clean("/" + strings.Join(segs, "/"))) {
+		out = append(out, "decode+strip-params+clean")
+	}
+	if !c04Under(gopath.Clean("/" + u.EscapedPath())) {
+		out = append(out, "clean-encoded")
+	}
+	return out
+}
 
 // c04Form classifies the request-target as written (RFC 9112 §3.2).
 func c04Form(target string) string {
@@ -784,6 +909,9 @@ func c04Run(x *h.Ctx, c c04Case) {
 		return fmt.Sprintf("cfg=%s listener=%s request-line=%q auth=%v -> status %d, handlers run: %v", c.Cfg, c.Lis, first, creds, status, hits)
 	}
 
+	if x.IsReplay {
+		x.Logf("C04 replay: %s", describe())
+	}
 	// O1, O2, O5
 	for _, hh := range hits {
 		x.Class("ran=" + hh.Route)
@@ -862,6 +990,13 @@ func c04Run(x *h.Ctx, c c04Case) {
 			}
 		}
 		x.Class("non-plain:" + form + ":" + outcome)
+		// would a guard that normalises the path (decode once / twice, fold backslashes, drop ;params, resolve dot segments)
+		// have disagreed with the router, which dispatched this request into /internal (handler ran, or auth answered 401)?
+		if routedInternal := outcome == "ran-internal(authenticated)" || status == 401; routedInternal && (form == "origin" || form == "absolute") {
+			for _, n := range c04Normalisations(repl.Replace(c.Target)) {
+				x.Class("router-internal-but-outside-/internal-after:" + n)
+			}
+		}
 		if len(hits) > 0 {
 			x.Class("non-plain-target-reached-a-handler")
 			for _, hh := range hits {
